@@ -148,3 +148,34 @@ func TestF11UnmarshalIntoDepthFreeCycle(t *testing.T) {
 		t.Error("Unmarshal into type P *P self-cycle returned nil error")
 	}
 }
+
+// F12: "the coder cannot be reset from within" failed after a nested user call: the
+// wrappers cleared WithinArshalCall on return instead of restoring the previous value.
+type f12Inner struct{}
+
+func (f12Inner) MarshalJSONTo(e *jsontext.Encoder) error {
+	return e.WriteToken(jsontext.String("inner"))
+}
+
+type f12Outer struct{ panicked *bool }
+
+func (o f12Outer) MarshalJSONTo(e *jsontext.Encoder) (err error) {
+	if err := json.MarshalEncode(e, f12Inner{}); err != nil {
+		return err
+	}
+	defer func() {
+		if r := recover(); r != nil {
+			*o.panicked = true
+		}
+	}()
+	e.Reset(new(bytes.Buffer)) // documented to panic inside MarshalJSONTo
+	return nil
+}
+
+func TestF12ResetAfterNestedCall(t *testing.T) {
+	var panicked bool
+	json.Marshal([]f12Outer{{&panicked}})
+	if !panicked {
+		t.Fatal("Encoder.Reset inside MarshalJSONTo did not panic after a nested MarshalEncode of a type with MarshalJSONTo")
+	}
+}
